@@ -198,7 +198,7 @@ def main() -> int:
         'traces_validated_against_impl': ctx.traces_validated,
         'theorems': pf['theorems'], 'print_assumptions': pf['assumptions'],
         'input_distribution': ctx.distribution,
-        'known_findings_matched': sorted(ctx.known_hits), 'notes': ctx.notes, 'coqchk': ctx.extra.get('coqchk'),
+        'known_findings_matched': sorted(ctx.known_hits), 'known_finding_messages': {k: sorted(set(v))[:6] for k, v in ctx.known_messages.items()}, 'notes': ctx.notes, 'coqchk': ctx.extra.get('coqchk'),
         'problems': [{'kind': p['kind'], 'family': p['family'], 'message': p['message'][:300]} for p in ctx.problems][:20],
     }
     cov.update(ctx.extra.get('coverage', {}))
